@@ -222,6 +222,56 @@ func addressable(v reflect.Value) reflect.Value {
 type step struct {
 	name string
 	t    reflect.Type // type of the value reached by this step
+	// how to get there from the previous value (after dereferencing pointers / interfaces)
+	kind byte // 'f' struct field idx, 'i' slice/array index idx, 'k' map key
+	idx  int
+	key  reflect.Value
+}
+
+// navigate follows a path of steps from root (a pointer); ok=false when the path does not exist in this object
+// (shorter slice, missing key, nil pointer). The result is a pointer to the value reached (a copy for map entries).
+func navigate(root any, path []step) (ptr any, ok bool) {
+	v := reflect.ValueOf(root)
+	for _, st := range path {
+		for v.Kind() == reflect.Ptr || v.Kind() == reflect.Interface {
+			if v.IsNil() {
+				return nil, false
+			}
+			v = v.Elem()
+		}
+		v = rw(v)
+		switch st.kind {
+		case 'f':
+			if v.Kind() != reflect.Struct || st.idx >= v.NumField() {
+				return nil, false
+			}
+			v = v.Field(st.idx)
+		case 'i':
+			if (v.Kind() != reflect.Slice && v.Kind() != reflect.Array) || st.idx >= v.Len() {
+				return nil, false
+			}
+			v = v.Index(st.idx)
+		case 'k':
+			if v.Kind() != reflect.Map {
+				return nil, false
+			}
+			e := v.MapIndex(st.key)
+			if !e.IsValid() {
+				return nil, false
+			}
+			v = addressable(e)
+		default:
+			return nil, false
+		}
+	}
+	v = rw(v)
+	if v.Kind() == reflect.Ptr {
+		if v.IsNil() {
+			return nil, false
+		}
+		return v.Interface(), true
+	}
+	return addressable(v).Addr().Interface(), true
 }
 
 func deepEq(a, b reflect.Value) bool {
@@ -255,8 +305,9 @@ func diff(a, b reflect.Value, path []step) (bool, []step) {
 		a, b = addressable(a), addressable(b)
 		return leaf(a.Addr().Interface().(*big.Float).Cmp(b.Addr().Interface().(*big.Float)) == 0)
 	}
-	sub := func(name string, x, y reflect.Value) (bool, []step) {
-		p := append(append([]step(nil), path...), step{name, x.Type()})
+	sub := func(st step, x, y reflect.Value) (bool, []step) {
+		st.t = x.Type()
+		p := append(append([]step(nil), path...), st)
 		return diff(x, y, p)
 	}
 	switch a.Kind() {
@@ -272,7 +323,7 @@ func diff(a, b reflect.Value, path []step) (bool, []step) {
 		return diff(addressable(a.Elem()), addressable(b.Elem()), path)
 	case reflect.Struct:
 		for i := 0; i < a.NumField(); i++ {
-			if eq, p := sub(a.Type().Field(i).Name, a.Field(i), b.Field(i)); !eq {
+			if eq, p := sub(step{name: a.Type().Field(i).Name, kind: 'f', idx: i}, a.Field(i), b.Field(i)); !eq {
 				return false, p
 			}
 		}
@@ -282,14 +333,14 @@ func diff(a, b reflect.Value, path []step) (bool, []step) {
 			return leaf(false)
 		}
 		for i := 0; i < a.Len(); i++ {
-			if eq, p := sub("[i]", a.Index(i), b.Index(i)); !eq {
+			if eq, p := sub(step{name: "[i]", kind: 'i', idx: i}, a.Index(i), b.Index(i)); !eq {
 				return false, p
 			}
 		}
 		return true, nil
 	case reflect.Array:
 		for i := 0; i < a.Len(); i++ {
-			if eq, p := sub("[i]", a.Index(i), b.Index(i)); !eq {
+			if eq, p := sub(step{name: "[i]", kind: 'i', idx: i}, a.Index(i), b.Index(i)); !eq {
 				return false, p
 			}
 		}
@@ -305,7 +356,7 @@ func diff(a, b reflect.Value, path []step) (bool, []step) {
 			if !bv.IsValid() {
 				return leaf(false)
 			}
-			if eq, p := sub("[k]", addressable(a.MapIndex(k)), addressable(bv)); !eq {
+			if eq, p := sub(step{name: "[k]", kind: 'k', key: k}, addressable(a.MapIndex(k)), addressable(bv)); !eq {
 				return false, p
 			}
 		}
